@@ -1246,3 +1246,43 @@ func c12passThroughRescans(c *an.Ctx) {
 	edges := f.GuardEdges(an.AtomLike(`^p4$`, true))
 	f.AfterEdgesMustPass(r, edges, un, "escapesPassThru ⇒ UnreadRune of the character after the backslash")
 }
+
+func init() {
+	old := All["C12"].Run
+	All["C12"].Run = func(c *an.Ctx) {
+		old(c)
+		c12integerLiteralByParseInt(c)
+	}
+	All["C12"].Rules += " R12"
+	addLevel("C12", "an INTEGER token is an IntegerLiteral whenever strconv.ParseInt accepts it (MaxInt64 included); only what does not fit int64 becomes an UnsignedLiteral.")
+}
+
+// c12integerLiteralByParseInt — C12.R12.  The printer writes MaxInt64 as 9223372036854775807; the
+// store must read it back as the same IntegerLiteral.  The type is decided by strconv.ParseInt
+// itself, not by a hand-written range comparison (off by one exactly at the limit).
+func c12integerLiteralByParseInt(c *an.Ctx) {
+	r := c.Rule("C12.R12", "K-BOUNDS", qlPkg+":(*Parser).parseUnaryExpr — case INTEGER: IntegerLiteral on the success edge of strconv.ParseInt")
+	f := fn(r, qlPkg+":Parser.parseUnaryExpr")
+	if f == nil {
+		return
+	}
+	body := f.CaseBody("influxql.INTEGER")
+	if body == nil {
+		r.Fail(f.Name+": case INTEGER", c.P.Pos(f.Body.Pos()), "parseUnaryExpr has no case INTEGER")
+		return
+	}
+	g := f.Region(body, "caseINTEGER")
+	pi := g.Find(call(r, "strconv:ParseInt"))
+	ret := g.Find(an.MReturn("of an IntegerLiteral", func(h *an.Fn, rs *ast.ReturnStmt) bool {
+		return len(rs.Results) == 2 && strings.Contains(types.ExprString(rs.Results[0]), "IntegerLiteral")
+	}))
+	r.AddSites(pi.Len() + ret.Len())
+	if r.Failed() {
+		return
+	}
+	if pi.Len() == 0 || ret.Len() == 0 {
+		r.Fail(f.Name+": case INTEGER", c.P.Pos(body[0].Pos()), "the INTEGER case no longer decides with strconv.ParseInt (found %d calls, %d IntegerLiteral returns): a hand-written range test is off by one at MaxInt64 as soon as it is written with `<`", pi.Len(), ret.Len())
+		return
+	}
+	g.Precedes(r, pi, ret, an.OrderOpt{Success: true, Label: "ParseInt(success) ≺ return IntegerLiteral"})
+}
